@@ -176,24 +176,30 @@ Section Chain.
   Definition sets_of (masks : list N) : list (list N) :=
     map (fun m => map N.of_nat (horder (Dom.members m))) masks.
 
-  (* the graph handed to propagation, when the chain gets that far *)
-  Definition ssa_of (c : Ir.cfg) : Base.outcome (Ssa.ssa_result Ir.cfg) :=
+  (* the immediate-dominator table of the tree, as propagation reads it (block index -> idom) *)
+  Definition idom_table (t : Dom.dom_tree) : list (option N) :=
+    map (fun o => match o with Some j => Some (N.of_nat j) | None => None end) (Dom.dt_idom t).
+
+  (* the graph handed to propagation, when the chain gets that far, with the
+     immediate-dominator table of its dominator tree *)
+  Definition ssa_of (c : Ir.cfg) : Base.outcome (list (option N) * Ssa.ssa_result Ir.cfg) :=
     let g := dom_of_ir c in
     Base.bind (Dom.dominator_tree (Dom.dom_fuel g) ord g)
-              (fun t => Base.Ok (Ssa.into_ssa (sets_of (Dom.dt_frontier t)) (sets_of (Dom.dt_children t)) c)).
+              (fun t => Base.Ok (idom_table t,
+                                 Ssa.into_ssa (sets_of (Dom.dt_frontier t)) (sets_of (Dom.dt_children t)) c)).
 
   Definition analyse_cfg (c : Ir.cfg) : def_result :=
     match ssa_of c with
-    | Base.Ok (Ssa.SOk c1) =>
-        match Propagate.propagate kv kd p c1 with
+    | Base.Ok (idom, Ssa.SOk c1) =>
+        match Propagate.propagate kv kd p idom c1 with
         | Base.Ok c2 => DROk c2
         | Base.Err _ => DRReport stage_propagate
         | Base.Panic s => DRPanic stage_propagate s
         | Base.OutOfFuel => DRFuel stage_propagate
         end
-    | Base.Ok Ssa.SErrUndefined => DRReport stage_ssa        (* variable used before it is defined *)
-    | Base.Ok Ssa.SPanic => DRPanic stage_ssa 0
-    | Base.Ok Ssa.SFuel => DRFuel stage_ssa
+    | Base.Ok (_, Ssa.SErrUndefined) => DRReport stage_ssa        (* variable used before it is defined *)
+    | Base.Ok (_, Ssa.SPanic) => DRPanic stage_ssa 0
+    | Base.Ok (_, Ssa.SFuel) => DRFuel stage_ssa
     | Base.Err _ => DRReport stage_dom
     | Base.Panic s => DRPanic stage_dom s
     | Base.OutOfFuel => DRFuel stage_dom
